@@ -3,7 +3,7 @@ from pyvc.verify import Post, Case, Equiv, NativeFacts
 from contracts import common
 
 PROPERTY = 'C15'
-REF_MODULES = ['ref_reduce']
+REF_MODULES = ['ref_reduce', 'ref_extra', 'ref_core']
 CLASSES = ['Fold', 'Sum', 'Count', 'Flatten', 'Merge']
 
 
@@ -49,6 +49,8 @@ def contracts():
     cs.append(NativeFacts('C15.class-facts', [
         ('FoldError<=GlomError', 'issubclass(FoldError, GlomError)', lambda f: f.issub('reduction.FoldError', 'core.GlomError')),
     ], func='class FoldError'))
+    from contracts import extra
+    cs += common.shared(extra, ['reduction.Fold.__init__', 'reduction.Merge.__init__', 'reduction.Flatten.__init__'])
     return cs
 
 
